@@ -12,8 +12,8 @@ def schedules(ctx, g, ninst, maxrevive):
               "IdPairs": "{}", "ClassSet": "{}", "MaxInst": "9", "MaxRestore": "9", "ScalarChoices": "<- AllScalars",
               "Attacker": "<- NoAttacker"})
     res = ctx.mc("MC_Interleave", cfg(spec="ISpec", constants=c, invariants=["Emit", "Isolated", "ExchangesAgree", "AtMostOneKey",
-                                                                              "AtMostOneMsg", "EntropyOnlyInStart"],
-                                      properties=["SharedUnchanged"]),
+                                                                              "AtMostOneMsg", "EntropyOnlyInStart", "LifecycleInv"],
+                                      properties=["SharedUnchanged", "RefinesLifecycle"]),
                  label="MC_Interleave[%s,%d instances,revives<=%d: every interleaving]" % (g, ninst, maxrevive), workers=1)
     scheds = []
     for m in re.finditer(r'^"SCHED (.*)"$', res["out"], re.M):
